@@ -41,3 +41,191 @@ Proof.
   unfold SFltb, SFleb. destruct (Prim2SF r) as [s|s| |s m e]; cbn; try reflexivity.
   destruct (Prim2SF b); cbn; discriminate.
 Qed.
+
+(* ---------- C19 numbers: range ---------- *)
+Definition in_range (mx v : float) : Prop := (0 <=? v) = true /\ (v <=? mx) = true.
+
+(* the number a result stands for; None = an exception *)
+Definition dres_value (d : dres) : option float :=
+  match d with DInt0 => Some 0 | DVal v => Some v | DErr _ => None end.
+
+Lemma py_min_in_range : forall mx r, (0 <=? mx) = true -> in_range mx (py_min mx (abs r)).
+Proof.
+  intros mx r Hmx. unfold py_min, in_range.
+  destruct (abs r <? mx) eqn:Hlt.
+  - split; [eapply abs_nonneg_of_lt; eassumption | apply ltb_leb; assumption].
+  - split; [assumption | apply leb_refl; eapply leb_not_nan_r; eassumption].
+Qed.
+
+(* whenever _get_numbers_distance returns, for ANY two numbers (nan, inf,
+   opposite signs, overflowing sums included) and any max_ >= 0, the result
+   lies in [0, max_] *)
+Theorem numbers_range : forall a b mx v,
+  (0 <=? mx) = true ->
+  dres_value (numbers_distance a b mx) = Some v -> in_range mx v.
+Proof.
+  intros a b mx v Hmx. unfold numbers_distance.
+  destruct (pynum_eq a b).
+  - cbn. intros [= <-]. split; [reflexivity | assumption].
+  - destruct (to_float a) as [x|]; [|discriminate].
+    destruct (to_float b) as [y|]; [|discriminate].
+    destruct (mx =? 0); [discriminate|].
+    destruct ((x + y) / mx =? 0); cbn; intros [= <-].
+    + split; [assumption | apply leb_refl; eapply leb_not_nan_r; eassumption].
+    + apply py_min_in_range; assumption.
+Qed.
+
+(* the exceptions, exactly *)
+Definition conv_ok (a : pynum) : bool := match to_float a with Some _ => true | None => false end.
+
+Theorem numbers_error_iff : forall a b mx e,
+  numbers_distance a b mx = DErr e <->
+  pynum_eq a b = false /\
+  ((e = EOverflow /\ (conv_ok a && conv_ok b = false)%bool) \/
+   (e = EZeroDiv /\ (conv_ok a && conv_ok b = true)%bool /\ (mx =? 0) = true)).
+Proof.
+  intros a b mx e. unfold numbers_distance, conv_ok.
+  destruct (pynum_eq a b); [split; [discriminate | intros [H _]; discriminate]|].
+  destruct (to_float a) as [x|]; cbn.
+  - destruct (to_float b) as [y|]; cbn.
+    + destruct (mx =? 0) eqn:Hm.
+      * split; [intros [= <-]; split; [reflexivity | right; auto] | intros [_ [[_ H]|[-> _]]]; [discriminate | reflexivity]].
+      * destruct ((x + y) / mx =? 0); (split; [discriminate | intros [_ [[_ H]|[_ [_ H]]]]; discriminate]).
+    + split; [intros [= <-]; split; [reflexivity | left; auto] | intros [_ [[-> _]|[_ [H _]]]]; [reflexivity | discriminate]].
+  - split; [intros [= <-]; split; [reflexivity | left; auto] | intros [_ [[-> _]|[_ [H _]]]]; [reflexivity | discriminate]].
+Qed.
+
+(* full statement "always a number in range": refuted by the two exceptions *)
+Definition numbers_total_statement : Prop :=
+  forall a b mx, (0 <=? mx) = true ->
+  exists v, dres_value (numbers_distance a b mx) = Some v /\ in_range mx v.
+
+Local Open Scope Z_scope.
+Theorem numbers_total_refuted_overflow :
+  exists a b mx, (0 <=? mx)%float = true /\ numbers_distance a b mx = DErr EOverflow.
+Proof. exists (PInt (10 ^ 400)), (PInt 1), 1%float. split; vm_compute; reflexivity. Qed.
+
+Theorem numbers_total_refuted_zerodiv :
+  exists a b mx, (0 <=? mx)%float = true /\ numbers_distance a b mx = DErr EZeroDiv.
+Proof. exists (PInt 1), (PInt 2), 0%float. split; vm_compute; reflexivity. Qed.
+
+Theorem numbers_total_refuted : ~ numbers_total_statement.
+Proof.
+  intro H. destruct (H (PInt 1) (PInt 2) 0%float eq_refl) as [v [Hv _]].
+  vm_compute in Hv. discriminate.
+Qed.
+Local Close Scope Z_scope.
+
+Theorem numbers_total_partial : forall a b mx,
+  (0 <=? mx) = true ->
+  (conv_ok a && conv_ok b && negb (mx =? 0))%bool = true ->
+  exists v, dres_value (numbers_distance a b mx) = Some v /\ in_range mx v.
+Proof.
+  intros a b mx Hmx G.
+  destruct (numbers_distance a b mx) as [|v|e] eqn:E.
+  - exists 0. split; [reflexivity|]. eapply numbers_range; [eassumption|]. rewrite E. reflexivity.
+  - exists v. split; [reflexivity|]. eapply numbers_range; [eassumption|]. rewrite E. reflexivity.
+  - exfalso. apply numbers_error_iff in E. destruct E as [_ [[_ H]|[_ [_ H]]]].
+    + rewrite H in G. discriminate.
+    + rewrite H in G. rewrite andb_false_r in G. discriminate.
+Qed.
+
+Example numbers_total_guard_satisfiable :
+  (conv_ok (PInt 2) && conv_ok (PFloat 0.5) && negb (1 =? 0))%bool = true
+  /\ numbers_distance (PInt 2) (PFloat 0.5) 1 = DVal 0x1.3333333333333p-1.
+Proof. split; vm_compute; reflexivity. Qed.
+
+(* ---------- C19 numbers: zero only for equal values ---------- *)
+Theorem numbers_zero_of_equal : forall a b mx,
+  pynum_eq a b = true -> numbers_distance a b mx = DInt0.
+Proof. intros a b mx H. unfold numbers_distance. rewrite H. reflexivity. Qed.
+
+Definition numbers_zero_iff_statement : Prop :=
+  forall a b mx v, (0 <=? mx) = true ->
+  dres_value (numbers_distance a b mx) = Some v ->
+  ((v =? 0) = true <-> pynum_eq a b = true).
+
+Local Open Scope Z_scope.
+(* K14: num1 + num2 overflows *)
+Theorem numbers_zero_refuted_overflow :
+  exists a b mx v, (0 <=? mx)%float = true /\ pynum_eq a b = false /\
+                   numbers_distance a b mx = DVal v /\ (v =? 0)%float = true.
+Proof.
+  exists (PFloat (SF2Prim (S754_finite false 5012531111497380 971))),   (* 1e308 *)
+         (PFloat (SF2Prim (S754_finite false 8521302889545546 971))),   (* 1.7e308 *)
+         1%float, 0%float.
+  repeat split; vm_compute; reflexivity.
+Qed.
+(* K14b: float(2**53) == float(2**53 + 1) *)
+Theorem numbers_zero_refuted_collapse :
+  exists a b mx v, (0 <=? mx)%float = true /\ pynum_eq a b = false /\
+                   numbers_distance a b mx = DVal v /\ (v =? 0)%float = true.
+Proof.
+  exists (PInt (2 ^ 53)), (PInt (2 ^ 53 + 1)), 1%float, 0%float.
+  repeat split; vm_compute; reflexivity.
+Qed.
+(* K14c: the quotient underflows: 5e-324, 1e-323, max_ = 5e-324 *)
+Theorem numbers_zero_refuted_underflow :
+  exists a b mx v, (0 <=? mx)%float = true /\ pynum_eq a b = false /\
+                   numbers_distance a b mx = DVal v /\ (v =? 0)%float = true.
+Proof.
+  exists (PFloat (SF2Prim (S754_finite false 1 (-1074)))), (PFloat (SF2Prim (S754_finite false 2 (-1074)))),
+         (SF2Prim (S754_finite false 1 (-1074))), 0%float.
+  repeat split; vm_compute; reflexivity.
+Qed.
+
+Theorem numbers_zero_iff_refuted : ~ numbers_zero_iff_statement.
+Proof.
+  intro H.
+  specialize (H (PInt (2 ^ 53)) (PInt (2 ^ 53 + 1)) 1%float 0%float eq_refl).
+  assert (E : dres_value (numbers_distance (PInt (2 ^ 53)) (PInt (2 ^ 53 + 1)) 1) = Some 0%float)
+    by (vm_compute; reflexivity).
+  destruct (H E) as [H1 _]. specialize (H1 eq_refl). vm_compute in H1. discriminate.
+Qed.
+Local Close Scope Z_scope.
+
+Definition sf_is_zero (s : spec_float) : bool := match s with S754_zero _ => true | _ => false end.
+Definition sf_is_finite (s : spec_float) : bool := match s with S754_finite _ _ _ => true | _ => false end.
+
+Lemma eqb_zero_sf : forall v, (v =? 0) = true -> sf_is_zero (Prim2SF v) = true.
+Proof.
+  intros v. rewrite eqb_spec, Prim2SF_zero. unfold SFeqb.
+  destruct (Prim2SF v) as [s|s| |s m e]; cbn; try reflexivity; try discriminate;
+    destruct s; discriminate.
+Qed.
+
+Lemma abs_zero_sf : forall q, sf_is_zero (Prim2SF (abs q)) = true -> sf_is_zero (Prim2SF q) = true.
+Proof. intros q. rewrite abs_spec. destruct (Prim2SF q); cbn; congruence. Qed.
+
+(* what a zero distance between different numbers means: the quotient
+   (x - y) / divisor is a signed zero, and by the IEEE division table that
+   happens in exactly three ways, each of which occurs (the three refutations
+   above): the converted numbers are equal as floats, the divisor overflowed to
+   infinity, or a finite quotient underflowed. *)
+Theorem numbers_zero_causes : forall a b mx x y v,
+  pynum_eq a b = false ->
+  to_float a = Some x -> to_float b = Some y ->
+  numbers_distance a b mx = DVal v -> (v =? 0) = true ->
+  let d := (x + y) / mx in
+  sf_is_zero (Prim2SF ((x - y) / d)) = true /\
+  (sf_is_zero (Prim2SF (x - y)) = true \/
+   is_inf_sf (Prim2SF d) = true \/
+   (sf_is_finite (Prim2SF (x - y)) && sf_is_finite (Prim2SF d))%bool = true).
+Proof.
+  intros a b mx x y v Hne Hx Hy. unfold numbers_distance. rewrite Hne, Hx, Hy.
+  destruct (mx =? 0) eqn:Hm; [discriminate|].
+  destruct ((x + y) / mx =? 0) eqn:Hd.
+  - intros [= <-] Hv. rewrite Hv in Hm. discriminate.
+  - unfold py_min. destruct (abs ((x - y) / ((x + y) / mx)) <? mx) eqn:Hlt.
+    2:{ intros [= <-] Hv. rewrite Hv in Hm. discriminate. }
+    intros [= <-] Hv. cbn zeta.
+    apply eqb_zero_sf in Hv. apply abs_zero_sf in Hv.
+    split; [assumption|].
+    rewrite div_spec in Hv. unfold SF64div, SFdiv in Hv.
+    assert (Hd' : sf_is_zero (Prim2SF ((x + y) / mx)) = false).
+    { rewrite eqb_spec, Prim2SF_zero in Hd. unfold SFeqb in Hd.
+      destruct (Prim2SF ((x + y) / mx)) as [s|s| |s m e]; cbn in *; congruence. }
+    destruct (Prim2SF (x - y)) as [s1|s1| |s1 m1 e1];
+      destruct (Prim2SF ((x + y) / mx)) as [s2|s2| |s2 m2 e2]; cbn in *;
+      try discriminate; auto.
+Qed.
